@@ -31,14 +31,14 @@ def run(ctx):
     r6(ctx, F)
 
 
-def loop_mtime_ok(F, body, arg_op):
+def loop_mtime_ok(F, body, arg_op, max_hops=3):
     """`arg_op` (an Option<i64> handed to a delivery fn) == src_meta.get(rel).map(|m| m.mtime) for the loop's rel."""
     fl = flow_of(body)
     os_ = fl.origins(arg_op)
     # resolve captures of the spawned task
     cur_body = body
     hops = 0
-    while any(o.kind == 'upvar' for o in os_) and hops < 3:
+    while any(o.kind == 'upvar' for o in os_) and hops < max_hops:
         nxt = set()
         for o in os_:
             if o.kind == 'upvar' and o.key is not None and cur_body.parent:
@@ -90,8 +90,29 @@ def r2(ctx, F):
     # (a) inside the delivery fns: set_local_mtime(dst, t) with t a pure copy of ONE parameter (the Option<i64> itself, or the
     #     `.mtime` of an Option<FileMeta>), on the path that was renamed onto, after the rename
     deliv = {}      # fn -> (slot of the time-carrying parameter, projected inside the fn?)
+    inlined_deliveries = []
     for fn in ('incremental::deliver_local', 'incremental::deliver_pull'):
         b = work_body(F, fn, ['meta::set_local_mtime'])
+        if b is None and F.body(fn) is None:
+            # the delivery helper was written out at its call site: the same obligations on the body that now holds the
+            # rename and the set_local_mtime call (the time is judged directly against the loop's source metadata)
+            entry = RUN_LOCAL if fn.endswith('deliver_local') else RUN_REMOTE
+            hosts = [x for x in F.nested(entry) if flow_of(x).calls_to('meta::set_local_mtime') and flow_of(x).calls(lambda c: c.endswith('fs::rename'))]
+            if not hosts:
+                ctx.missing('C14.R2', '%s (or its body written out under %s)' % (fn, entry))
+            for hb in hosts:
+                hfl = flow_of(hb)
+                renames = hfl.calls(lambda c: c.endswith('fs::rename'))
+                for sb, st in hfl.calls_to('meta::set_local_mtime'):
+                    ok_t, why = loop_mtime_ok(F, hb, st['args'][1], max_hops=6)
+                    pure = ok_t and why == 'projected'
+                    dkey = lambda op_: {(o.kind, str(o.key), o.bb, tuple(o.path)) for o in hfl.origins(op_) if o.kind != 'comb'}
+                    dst_ok = any(dkey(rt_['args'][1]) == dkey(st['args'][0]) for rb_, rt_ in renames)
+                    after = all(hfl.guarded_by(sb, rb_, 'Ok') for rb_, _ in renames)
+                    ctx.check(pure and dst_ok and after, 'C14.R2', '%s:set_local_mtime(dst, t)' % fn.split('::')[-1], 'time = the source metadata mtime of the loop path, on the delivered file, after the rename',
+                              'the written-out %s sets a modified value / on another path / before the rename (time=%s (%s), dst=%s, after rename=%s)' % (fn.split('::')[-1], pure, why, dst_ok, after), term_loc(hb, sb))
+                    inlined_deliveries.append(fn)
+            continue
         if b is None:
             ctx.bad('C14.R2', '%s:set_local_mtime-exists' % fn.split('::')[-1], '%s no longer sets the destination mtime' % fn, None)
             continue
@@ -138,7 +159,7 @@ def r2(ctx, F):
                 n += 1
                 ctx.check(ok, 'C14.R2', '%s:%s(mtime)' % (key, c.split('::')[-1]), 'mtime = src_meta.get(rel).map(|m| m.mtime)',
                           'the mtime handed to %s is not the source metadata\'s mtime of the same path: %s' % (c.split('::')[-1], why), term_loc(body, cb))
-    if n < 3:
+    if n + len(set(inlined_deliveries)) < 3:
         ctx.missing('C14.R2', 'delivery call sites (found %d)' % n)
     # push: the @{t} hole is the mtime parameter
     b = work_body(F, 'transfer::transfer_file_to_remote', ['tokio::process::Command::new'])
@@ -260,13 +281,16 @@ def r3(ctx, F):
 
 def r4(ctx, F):
     n = 0
-    for fn in ('incremental::deliver_local', 'incremental::deliver_pull'):
-        b = work_body(F, fn, ['meta::set_local_mtime'])
-        if b is None:
+    seen_keys = {}
+    for b in sorted(F.bodies.values(), key=lambda x: x.path):
+        if '::tests' in b.path or 'generated' in b.file:
             continue
         fl = flow_of(b)
         for sb, st in fl.calls_to('meta::set_local_mtime'):
             n += 1
+            top = b.path.split('::{')[0].split('::')[-1]
+            seen_keys[top] = seen_keys.get(top, 0) + 1
+            fn = top + ('' if seen_keys[top] == 1 else '#%d' % seen_keys[top])
             ctx.check(not fl.result_discarded(sb), 'C14.R4', '%s:set_local_mtime-result' % fn.split('::')[-1], 'result inspected / propagated',
                       '`let _ = set_local_mtime(..)`: when setting the mtime fails (e.g. a read-only file copied with mode 0444, opened for write) the run still '
                       'exits 0, the destination keeps the copy time and the file is re-sent on every following run', term_loc(b, sb))
